@@ -253,8 +253,8 @@ func checkWriterTenant(c WriterCase, cv *cov) *evid.Violation {
 
 // SkipTenantCase: values decoded through the stream skip decoders, results retained for their documented lifetime.
 type SkipTenantCase struct {
-	Lens    []int        `json:"lens"` // string lengths of the values (each value is a struct holding one string and an i32)
-	Reader  bool         `json:"reader"` // true: ReaderSkipDecoder over a plain io.Reader; false: SkipDecoder over a bufiox reader
+	Lens    []int        `json:"lens"`              // string lengths of the values (each value is a struct holding one string and an i32)
+	Reader  bool         `json:"reader"`            // true: ReaderSkipDecoder over a plain io.Reader; false: SkipDecoder over a bufiox reader
 	Release []bool       `json:"release,omitempty"` // SkipDecoder: Release the bufiox reader after value i
 	Plan    faultio.Plan `json:"plan"`
 	Tenant  int          `json:"tenant"`
